@@ -24,6 +24,8 @@ fn main() {
         "C07" => c07::run(&tier),
         "C08" => c08::run(&tier),
         "C09" => c09::run(&tier),
+        "C10" => c10::run(&tier),
+        "C11" => c11::run(&tier),
         _ => {
             eprintln!("unknown property {}", id);
             2
